@@ -51,6 +51,11 @@ class C09(Property):
              ("antismash/common/secmet/features/cds_feature.py", "_ensure_valid_translation"),
              ("antismash/common/secmet/features/cds_feature.py", "CDSFeature.translation"),
              ("antismash/common/secmet/record.py", "Record.from_biopython"),
+             ("antismash/common/secmet/record.py", "Record.to_biopython"),
+             ("antismash/common/secmet/record.py", "Record.add_biopython_feature"),
+             (LOC_PY, "remove_redundant_exons"),
+             (LOC_PY, "location_from_biopython"),
+             ("antismash/modules/tta/tta.py", "TTAResults.add_to_record"),
              ("antismash/common/secmet/features/feature.py", "Feature.to_biopython"),
              ("antismash/common/secmet/features/prepeptide.py", "Prepeptide.to_biopython"),
              ("antismash/common/secmet/features/prepeptide.py", "Prepeptide.from_biopython"),
@@ -80,7 +85,8 @@ class C09(Property):
             "Prepeptide.from_biopython + positioned again) x TTA codon offsets x partial genes (fuzzy </> on any part edge, "
             "ends beyond the product) x pfam/motif/domain feature creation on a real record x CDS read through Record.from_biopython "
             "with its own /transl_table (4/25/6/2/3/1/11 or none), no or invalid /translation and table-dependent codons in "
-            "frame; a random DNA string per case; "
+            "frame x annotated circular records (gene + motif + TTA marker + prepeptide) written with Record.to_biopython and "
+            "read back with Record.from_biopython; a random DNA string per case; "
             "thorough/deep: every gene with <=3 exons on a 1-grid of total length <=9 (+ all cuts of a ring of 12) x all "
             "ranges; non-trivial = multi-exon or origin-spanning gene with a valid range; distinct by canonical input")
     TRUSTED = ["Biopython: SimpleLocation/CompoundLocation.extract concatenates parts in list order and reverse-complements "
@@ -286,6 +292,18 @@ class C09(Property):
                 yield dict(base, kind="prepeptide_rt", leader=ld2, tail=tl2)
             if rng.random() < 0.3 and loc["parts"][0][2] in (1, -1) and aa >= 2:
                 yield self.cds_table_case(rng, loc, dna)
+            crossings = sum(1 for a, b in zip(loc["parts"], loc["parts"][1:])
+                            if ((a[0] < b[0]) if loc["parts"][0][2] == -1 else (a[0] > b[0])))
+            if loc["parts"][0][2] in (1, -1) and aa >= 2 and crossings <= 1 \
+                    and rng.random() < (0.6 if len(loc["parts"]) > 1 else 0.1):
+                # the annotated record written out and read back (results reuse / GenBank re-read)
+                s = rng.randrange(0, aa)
+                e = rng.randrange(s + 1, aa + 1)
+                marks = [3 * (b // 3) for b in self.borders(loc)[:-1] if 3 * (b // 3) + 3 <= total]
+                off = rng.choice(marks) if marks and rng.random() < 0.6 else 3 * rng.randrange(0, aa)
+                ld2 = rng.randrange(0, aa)
+                yield dict(base, kind="record_rt", s=s, e=e, off=off, leader=ld2, tail=rng.randrange(0, aa - ld2),
+                           dna=self.without_stops(loc, dna))
             if rng.random() < 0.35 and loc["parts"][0][2] in (1, -1):
                 s, e = self.rand_range(rng, loc, 3)
                 yield dict(base, kind=rng.choice(["motif", "domain", "pfam"]), s=s, e=e, dna=self.without_stops(loc, dna))
@@ -457,6 +475,8 @@ class C09(Property):
                 out.update(self._run_pfam(case, location, seq, gene_extract))
             elif kind == "cds_table":
                 out.update(self._run_cds_table(case, location, seq))
+            elif kind == "record_rt":
+                out.update(self._run_record_rt(case, location, seq, gene_extract))
             elif kind == "tta_detect":
                 out.update(self._run_tta_detect(case, location))
             else:
@@ -576,6 +596,83 @@ class C09(Property):
                 "protein": [int(dom.protein_location.start), int(dom.protein_location.end)]}
 
     @staticmethod
+    def _run_record_rt(case: Dict[str, Any], location: Any, seq: Any, gene_extract: str) -> Dict[str, Any]:
+        """a circular record with a gene and annotations positioned inside it (motif, TTA marker, prepeptide) is
+           written with Record.to_biopython and read back with Record.from_biopython; every annotation must still
+           cover the nucleotides that encode it"""
+        from Bio.Seq import Seq
+        from antismash.common.hmmscan_refinement import HMMResult
+        from antismash.common.secmet import Record
+        from antismash.common.secmet.features.prepeptide import Prepeptide
+        from antismash.common.secmet.test.helpers import DummyCDS, DummyRecord
+        from antismash.detection.nrps_pks_domains import domain_identification as di
+        from antismash.modules.tta.tta import TTAResults
+        usable = gene_extract[:len(gene_extract) - len(gene_extract) % 3]
+        translation = str(Seq(usable).translate())
+        residues = len(usable) // 3
+        if not (0 <= case["s"] < case["e"] <= residues and 0 <= case["off"] and case["off"] + 3 <= len(gene_extract)
+                and case["leader"] >= 0 and case["tail"] >= 0 and case["leader"] + case["tail"] < residues
+                and "*" not in translation):
+            return {"skipped": "degenerate case (ranges outside the product)"}
+        made: Dict[str, Any] = {}
+        try:
+            record = DummyRecord(seq=str(seq), circular=True, record_id="rec")
+            cds = DummyCDS(location=location, locus_tag="gene", translation=translation)
+            record.add_cds_feature(cds)
+        except Exception as exc:  # pylint: disable=broad-except
+            return {"skipped": f"record set-up refused: {str(exc)[:80]}"}
+        try:
+            motif = di.generate_motif_features(cds, [HMMResult("motif", case["s"], case["e"], 1e-9, 30.0)])[0]
+            record.add_cds_motif(motif)
+            made["motif"] = common.location_json(motif.location)
+        except ValueError:
+            pass                                    # a location no Feature can hold
+        try:
+            results = TTAResults("rec", 1.0, 0.0)
+            marker = results.new_feature_from_other(cds, case["off"])
+            results.add_to_record(record)
+            made["tta"] = common.location_json(marker.location)
+        except ValueError:
+            pass
+        try:
+            pre = Prepeptide(location, "lanthipeptide", "C", "gene", "tool", peptide_subclass="Class I", score=1.0,
+                             leader="L" * case["leader"], tail="T" * case["tail"])
+            record.add_cds_motif(pre)
+            made["prepeptide"] = True
+        except ValueError:
+            pass
+        try:
+            bio = record.to_biopython()
+            bio.annotations["molecule_type"] = "DNA"
+            again = Record.from_biopython(bio, taxon="bacteria")
+        except Exception as exc:  # pylint: disable=broad-except
+            # refusals that are not this property's business: exon orders crossing the origin more than once, and
+            # written sections whose exons share an end coordinate (no Feature can hold them)
+            if "cannot determine correct ordering" in str(exc) or "overlapping exons" in str(exc):
+                return {"skipped": f"round trip refused: {str(exc)[:80]}"}
+            raise
+        out: Dict[str, Any] = {"made": made}
+        gene = again.get_cds_by_name("gene")
+        out["gene"] = {"loc": common.location_json(gene.location), "extract": str(gene.location.extract(again.seq)),
+                       "translation": gene.translation}
+        for feat in again.get_cds_motifs():
+            if isinstance(feat, Prepeptide):
+                sections = {}
+                for bio_feat in feat.to_biopython():
+                    sections[bio_feat.qualifiers["prepeptide"][0]] = {
+                        "loc": common.location_json(bio_feat.location),
+                        "extract": str(bio_feat.location.extract(again.seq))}
+                out["prepeptide"] = sections
+            else:
+                out["motif"] = {"loc": common.location_json(feat.location),
+                                "extract": str(feat.location.extract(again.seq)), "translation": feat.translation}
+        generics = [f for f in again.get_generics() if f.type == "misc_feature"]
+        if generics:
+            out["tta"] = {"loc": common.location_json(generics[0].location),
+                          "extract": str(generics[0].location.extract(again.seq))}
+        return out
+
+    @staticmethod
     def _run_cds_table(case: Dict[str, Any], location: Any, seq: Any) -> Dict[str, Any]:
         """Record.from_biopython → CDSFeature.from_biopython generates the gene's translation; every sub-location
            must encode, under the gene's OWN table, that stretch of the gene's translation"""
@@ -686,6 +783,10 @@ class C09(Property):
                         impl_tail=(obs.get("tail") or {}).get("loc"))
         elif kind == "tta":
             line.update(kind="tta", off=case["off"], impl=obs.get("loc"))
+        elif kind == "record_rt":
+            line.update(kind="record_rt", s=case["s"], e=case["e"], off=case["off"],
+                        impl_gene=(obs.get("gene") or {}).get("loc"), impl_motif=(obs.get("motif") or {}).get("loc"),
+                        impl_tta=(obs.get("tta") or {}).get("loc"))
         elif kind == "cds_table":
             from Bio.Seq import Seq
             extract = obs["gene_extract"]
@@ -720,6 +821,8 @@ class C09(Property):
                              detail="Biopython extract disagrees with the transcription-order reading")
         if kind == "cds_table":
             return self._judge_cds_table(case, obs, drv, scope, tags)
+        if kind == "record_rt":
+            return self._judge_record_rt(case, obs, drv, scope, tags)
         if kind == "pfam" and "skipped" in obs:
             tags.append("pfam-skipped")
             return Judgement(True, True, in_scope=scope, tags=tuple(tags))
@@ -898,6 +1001,64 @@ class C09(Property):
         nontrivial = guard and scope and impl_err is None and (multi or drv["bridges"])
         proved = scope and (kind != "convert" or bool(spec["standard"]))   # convert_*: standard exon order only
         return Judgement(corr, spec_ok, in_scope=proved, nontrivial=nontrivial, tags=tuple(tags), detail=detail)
+
+    def _judge_record_rt(self, case: Dict[str, Any], obs: Dict[str, Any], drv: Dict[str, Any], scope: bool,
+                         tags: List[str]) -> Judgement:
+        if "skipped" in obs:
+            tags.append("record-skipped")
+            return Judgement(True, True, in_scope=scope, tags=tuple(tags))
+        if "err" in obs:
+            return Judgement(False, False, in_scope=scope, tags=tuple(tags),
+                             detail=f"writing the record out and reading it back failed: {obs.get('msg')}")
+        from Bio.Seq import Seq
+        loc, dna = case["loc"], case["dna"]
+        model, spec, made = drv["model"], drv["spec"], obs["made"]
+        gene_seq = obs["gene_extract"]
+        whole = str(Seq(gene_seq[:len(gene_seq) // 3 * 3]).translate())
+        corr = obs["gene"]["loc"] == model["gene"]
+        detail = "" if corr else f"gene re-read at {obs['gene']['loc']}, model {model['gene']}"
+        spec_ok = spec["gene"] is True and obs["gene"]["extract"] == gene_seq \
+            and ("M" + obs["gene"]["translation"][1:]) == ("M" + whole[1:])
+        if not spec_ok:
+            detail = (f"gene {loc['parts']} is read back at {obs['gene']['loc']['parts']}: it no longer encodes its "
+                      f"translation ({obs['gene']['extract']} vs {gene_seq})")
+        for key, sl, stretch in (("motif", spec["motif_slice"], whole[case["s"]:case["e"]]), ("tta", spec["tta_slice"], None)):
+            if key not in made:
+                continue
+            tags.append("reread-" + key)
+            m = model[key].get("ok")
+            if key not in obs:
+                corr = False
+                detail = detail or f"{key} lost on re-reading"
+                continue
+            if obs[key]["loc"] != m:
+                corr = False
+                detail = detail or f"{key} re-read at {obs[key]['loc']}, model {model[key]}"
+            want = transcribed(loc, dna, sl)
+            good = spec[key] is True and obs[key]["extract"] == want
+            if good and stretch is not None:
+                good = str(Seq(obs[key]["extract"]).translate()) == stretch == obs[key]["translation"]
+            if spec_ok and not good:
+                spec_ok = False
+                detail = (f"{key} written at {made[key]['parts']} inside gene {loc['parts']} is read back at "
+                          f"{obs[key]['loc']['parts']} and extracts {obs[key]['extract']!r} instead of {want!r}")
+        if made.get("prepeptide") and spec_ok:
+            tags.append("reread-prepeptide")
+            total = len(gene_seq) // 3
+            bounds = {"leader": (0, case["leader"]), "core": (case["leader"], total - case["tail"]),
+                      "tail": (total - case["tail"], total)}
+            sections = obs.get("prepeptide") or {}
+            for name, (a, b) in bounds.items():
+                if a == b:
+                    continue
+                got = (sections.get(name) or {}).get("extract")
+                if got != gene_seq[3 * a:3 * b]:
+                    spec_ok = False
+                    detail = (f"prepeptide {name} of gene {loc['parts']} after re-reading: "
+                              f"{(sections.get(name) or {}).get('loc')} extracts {got!r}, not {gene_seq[3 * a:3 * b]!r}")
+                    break
+        nontrivial = scope and bool(drv["bridges"]) and bool(made)
+        return Judgement(corr, spec_ok or not scope, in_scope=scope, nontrivial=nontrivial, tags=tuple(tags), detail=detail)
 
     @staticmethod
     def _judge_cds_table(case: Dict[str, Any], obs: Dict[str, Any], drv: Dict[str, Any], scope: bool,
